@@ -39,4 +39,24 @@ PROPS["C16"] = {
     "trusted": ["unicode/utf8.Valid decides RFC 3629 well-formedness (Spec.Utf8.valid): compared exhaustively on every byte string of length <= 3 on every run"],
 }
 
+PROPS["C15"] = {
+    "theorems": ["TQ.getJob_cases", "TQ.inv_init", "TQ.inv_step", "TQ.inv_run", "TQ.fifo_exactly_once", "TQ.bounded_concurrency",
+                 "TQ.one_at_a_time", "TQ.no_stranded_task", "TQ.drain_spec", "TQ.drains"],
+    "suites": ["taskq"],
+    "trusted": ["a sync.Mutex critical section is atomic w.r.t. other sections of the same mutex (Facts.getJobLocks: getJob is one Lock/defer Unlock region)",
+                "the queue inside workerQueue behaves as a list under PushBack/PopFront (C20)",
+                "Facts.writeQueueMaxConcurrency = [1, 1]: both Conn construction sites use maxConcurrency 1",
+                "goroutine creation (`go c.do(job)`) eventually runs the worker"],
+    "assumptions": ["submission order = order of the Push critical sections (program order per goroutine)"],
+}
+PROPS["C19"] = {
+    "theorems": ["CMap.toBinaryNumber_pow2", "CMap.and_mask_eq_mod", "CMap.shard_index_in_range", "CMap.wf_invariant", "CMap.size_is_card",
+                 "CMap.load_refines", "CMap.store_refines", "CMap.delete_refines", "CMap.linearizable_single_section", "CMap.len_bounds",
+                 "CMap.range_visits", "CMap.range_visits_all", "SMap.smap_refines", "SMap.smap_len_exact", "SMap.smap_range_visits", "SMap.smap_linearizable"],
+    "suites": ["cmap", "cmapconc"],
+    "trusted": ["a sync.Mutex critical section is atomic (Facts.smapLocks; per-shard Lock/Unlock pairs in ConcurrentMap)",
+                "Go map semantics; maphash.Hasher is a function of the key",
+                "cmapconc (real concurrent histories checked with porcupine + a register checker) validates the atomicity assumption; it is not part of the proof"],
+}
+
 EXTRA = {}
